@@ -3844,7 +3844,6 @@ reinit:
             coap_free_type(COAP_STRING, lg_crcv->body_data);
             lg_crcv->body_data = NULL;
 
-            coap_session_new_token(session, &len, buf);
             memset(&drop_options, 0, sizeof(coap_opt_filter_t));
             coap_option_filter_set(&drop_options, COAP_OPTION_OBSERVE);
             pdu = coap_pdu_duplicate_lkd(&lg_crcv->pdu, session, len, buf, &drop_options);
